@@ -428,17 +428,32 @@ func runDoc(r *vh.Run, dc docCase, configs []wconf) {
 		r.Count("config:" + c.name)
 		// ---- K
 		text := after.tv.text(nil) + "|dangling=" + vh.Ints(dang)
-		if refConf == "" {
+		if !ok {
+			// the table of a configuration that already failed the oracle is no reference
+		} else if refConf == "" {
 			refConf, refText = c.name, text
 			if len(before.tv.nrs) <= dc.maxObjs {
 				r.Case("write", []string{before.tv.wire(), vh.Int(int64(before.root)), infoArg(before), vh.Bool(before.rootVer), "100"}, "ok:"+digest(text))
 			} else {
 				r.Count("doc:too-big-for-model")
 			}
-		} else if text != refText {
+		} else if ok && text != refText {
 			r.OracleFail("config-dependent-output", input(c), fmt.Sprintf("table after %s differs from table after %s", c.name, refConf))
 		}
 	}
+}
+
+func secondGeneration(doc []byte) []byte {
+	c := wconf{"objstm-lf", true, true, types.EolLF, ""}
+	ctx, _, err := readInput(doc, c.conf())
+	if err != nil {
+		return nil
+	}
+	out, err := writeOut(ctx)
+	if err != nil {
+		return nil
+	}
+	return out
 }
 
 func infoArg(s *snapshot) string {
@@ -515,6 +530,14 @@ func main() {
 			}
 		}
 		runDoc(r, docCase{name: fmt.Sprintf("gen-%d", i), doc: doc, hazards: di.hazards, desc: strings.Join(di.desc, ","), maxObjs: 100000}, cs)
+		if i%4 == 0 {
+			// second generation: the same document as pdfcpu writes it with object streams, so that
+			// the reader delivers undecoded object stream members (types.LazyObjectStreamObject)
+			if doc2 := secondGeneration(doc); doc2 != nil {
+				r.Count("gen:second-generation")
+				runDoc(r, docCase{name: fmt.Sprintf("gen2-%d", i), doc: doc2, hazards: di.hazards, desc: "objstm-written," + strings.Join(di.desc, ","), maxObjs: 100000}, cs)
+			}
+		}
 	}
 
 	// corpus
